@@ -61,6 +61,7 @@ def fieldKind? : Nat → Option FieldKind
 
 def influxLine? : Tree → Option InfluxLine
   | .l [.n 0] => some .bad
+  | .l [.n 2] => some .danglingEscape
   | .l (.n 1 :: .n m :: others) => do
     let os ← others.mapM (fun t => do fieldKind? (← nat? t))
     if m = 0 then some (.point none os) else some (.point (some (← fieldKind? m)) os)
